@@ -1,9 +1,10 @@
 From Coq Require Import QArith Qcanon Qcabs.
-From Raptor Require Import Base.Sums Amg.Cycle Extract.Inst Extract.Inst_cycle.
+From Raptor Require Import Base.Sums Amg.Cycle Amg.Solve Extract.Inst Extract.Inst_cycle.
 Require Import ExtrOcamlBasic.
 Extraction Language OCaml.
 Extraction "model_cycle.ml"
   Q2Qc Qcplus Qcmult Qcminus Qcopp Qcinv Qcdiv Qccompare Coq.QArith.Qcabs.Qcabs
   Qc_small Qc_ltb Qc_leb Qc_eqb Qc_tiny Qc_is0
   q_ge_solve q_lsolve q_h_cycle q_cycle_x q_fresh_scratch q_poison_scratch q_mulmat q_c_resid
-  q_c_relax q_c_restrict q_c_coarse q_run_history.
+  q_c_relax q_c_restrict q_c_coarse q_run_history
+  q_solve q_solve_now q_measure q_xresid q_xnorm2 q_sumsq q_lift_cycle fin_vals all_fin.
